@@ -309,3 +309,157 @@ pub fn by_eq<T: ?Sized>(_a: &T, _b: &T) -> bool {
     true
 }
 pub fn by_hash<T: ?Sized, H: Hasher>(_a: &T, _s: &mut H) {}
+
+// ---------------------------------------------------------------------------------------------
+// CF: clone-recording field.  CF(tag, val): tag = the position the driver put it in.
+// ---------------------------------------------------------------------------------------------
+#[derive(Debug, PartialEq, Eq)]
+pub struct CF(pub u8, pub u8);
+impl Clone for CF {
+    fn clone(&self) -> Self {
+        log(format!("clone:{}:{}", self.0, self.1));
+        CF(self.0, self.1)
+    }
+    fn clone_from(&mut self, source: &Self) {
+        log(format!("clone_from:{}:{}:{}:{}", self.0, self.1, source.0, source.1));
+        self.0 = source.0;
+        self.1 = source.1;
+    }
+}
+
+// ---------------------------------------------------------------------------------------------
+// Tm: free term algebra.  Every operator application builds the term and logs the call with the
+// reference form it was called in (v = by value, r = by reference).
+// ---------------------------------------------------------------------------------------------
+#[derive(Clone, Debug, PartialEq, Eq)]
+pub struct Tm(pub String);
+pub fn tm(s: &str) -> Tm {
+    Tm(s.to_string())
+}
+macro_rules! tm_binop {
+    ($tr:ident, $f:ident, $tra:ident, $fa:ident, $name:expr) => {
+        impl ::core::ops::$tr<Tm> for Tm {
+            type Output = Tm;
+            fn $f(self, r: Tm) -> Tm {
+                log(format!("{}:vv:{}:{}", $name, self.0, r.0));
+                Tm(format!("{}({},{})", $name, self.0, r.0))
+            }
+        }
+        impl<'a> ::core::ops::$tr<&'a Tm> for Tm {
+            type Output = Tm;
+            fn $f(self, r: &'a Tm) -> Tm {
+                log(format!("{}:vr:{}:{}", $name, self.0, r.0));
+                Tm(format!("{}({},{})", $name, self.0, r.0))
+            }
+        }
+        impl<'a> ::core::ops::$tr<Tm> for &'a Tm {
+            type Output = Tm;
+            fn $f(self, r: Tm) -> Tm {
+                log(format!("{}:rv:{}:{}", $name, self.0, r.0));
+                Tm(format!("{}({},{})", $name, self.0, r.0))
+            }
+        }
+        impl<'a, 'b> ::core::ops::$tr<&'b Tm> for &'a Tm {
+            type Output = Tm;
+            fn $f(self, r: &'b Tm) -> Tm {
+                log(format!("{}:rr:{}:{}", $name, self.0, r.0));
+                Tm(format!("{}({},{})", $name, self.0, r.0))
+            }
+        }
+        impl ::core::ops::$tra<Tm> for Tm {
+            fn $fa(&mut self, r: Tm) {
+                log(format!("{}_assign:v:{}:{}", $name, self.0, r.0));
+                self.0 = format!("{}({},{})", $name, self.0, r.0);
+            }
+        }
+        impl<'a> ::core::ops::$tra<&'a Tm> for Tm {
+            fn $fa(&mut self, r: &'a Tm) {
+                log(format!("{}_assign:r:{}:{}", $name, self.0, r.0));
+                self.0 = format!("{}({},{})", $name, self.0, r.0);
+            }
+        }
+    };
+}
+tm_binop!(Add, add, AddAssign, add_assign, "add");
+tm_binop!(BitAnd, bitand, BitAndAssign, bitand_assign, "bitand");
+tm_binop!(BitOr, bitor, BitOrAssign, bitor_assign, "bitor");
+tm_binop!(BitXor, bitxor, BitXorAssign, bitxor_assign, "bitxor");
+tm_binop!(Div, div, DivAssign, div_assign, "div");
+tm_binop!(Mul, mul, MulAssign, mul_assign, "mul");
+tm_binop!(Rem, rem, RemAssign, rem_assign, "rem");
+tm_binop!(Shl, shl, ShlAssign, shl_assign, "shl");
+tm_binop!(Shr, shr, ShrAssign, shr_assign, "shr");
+tm_binop!(Sub, sub, SubAssign, sub_assign, "sub");
+macro_rules! tm_unop {
+    ($tr:ident, $f:ident, $name:expr) => {
+        impl ::core::ops::$tr for Tm {
+            type Output = Tm;
+            fn $f(self) -> Tm {
+                log(format!("{}:v:{}", $name, self.0));
+                Tm(format!("{}({})", $name, self.0))
+            }
+        }
+        impl<'a> ::core::ops::$tr for &'a Tm {
+            type Output = Tm;
+            fn $f(self) -> Tm {
+                log(format!("{}:r:{}", $name, self.0));
+                Tm(format!("{}({})", $name, self.0))
+            }
+        }
+    };
+}
+tm_unop!(Neg, neg, "neg");
+tm_unop!(Not, not, "not");
+
+// ---------------------------------------------------------------------------------------------
+// LT / RT: operand types for operators derived from a user impl.  Cloning is logged.
+// ---------------------------------------------------------------------------------------------
+#[derive(Debug, PartialEq, Eq)]
+pub struct LT(pub String);
+impl Clone for LT {
+    fn clone(&self) -> Self {
+        log(format!("cloneL:{}", self.0));
+        LT(self.0.clone())
+    }
+}
+#[derive(Debug, PartialEq, Eq)]
+pub struct RT(pub String);
+impl Clone for RT {
+    fn clone(&self) -> Self {
+        log(format!("cloneR:{}", self.0));
+        RT(self.0.clone())
+    }
+}
+
+// ---------------------------------------------------------------------------------------------
+// PV2: provenance-recording value for Default
+// ---------------------------------------------------------------------------------------------
+#[derive(Debug, Clone, PartialEq, Eq)]
+pub struct Pr(pub String);
+impl Default for Pr {
+    fn default() -> Self {
+        Pr("default()".to_string())
+    }
+}
+/// source type of conversions
+#[derive(Debug, Clone, Copy)]
+pub struct Src(pub u8);
+impl From<Src> for Pr {
+    fn from(s: Src) -> Pr {
+        Pr(format!("from_src:{}", s.0))
+    }
+}
+impl From<&str> for Pr {
+    fn from(s: &str) -> Pr {
+        Pr(format!("from_str:{}", s))
+    }
+}
+pub const SRC7: Src = Src(7);
+pub const PR9: fn() -> Pr = || Pr("const_fn".to_string());
+pub struct Holder;
+impl Holder {
+    pub const SRC3: Src = Src(3);
+}
+pub fn mk(n: u8) -> Pr {
+    Pr(format!("call:{}", n))
+}
